@@ -9,6 +9,15 @@ import (
 	c "verifharness/common"
 )
 
+// slackNs is the "scheduling slack" the monitor grants on top of the
+// time-to-live: one period of the processor's processing loop
+// (queueProcessor.getNextProcessTime: 100 ms), the only polling constant of the
+// queue code.  The TTL watcher itself does not poll (it sets a timer for the
+// earliest expiry), so what can legitimately delay a time-out is the loop
+// holding the request during a pass; one loop period beyond the last instant the
+// loop held it is granted.
+const slackNs = int64(100_000_000)
+
 type monReq struct {
 	prio      int
 	seq       int   // order in which requests entered the queue
@@ -21,6 +30,8 @@ type monReq struct {
 	lateEntry bool // entered the queue after the drain
 	created   bool
 	createdAt int64
+	entered   int64 // instant at which it entered the queue (registration)
+	lastHeld  int64 // last instant at which the processing loop held it (-1: never)
 }
 
 func prioOf(cfg *Cfg, g int) int {
@@ -50,6 +61,21 @@ func monitor(k *Case) []c.Hit {
 	gateOpen := true
 	drained := false
 	asking := 0 // request the loop currently holds (quota question open or answered, not yet signalled)
+	// suite "sched": was the TTL watcher given the chance to run?  The clock of a
+	// case moves only at "advance"; a step is FAIR when it does not pass the
+	// watcher's timer (nextExpireAt as observed after the previous operation)
+	// and, when the timer is already due, when a wake/scan operation ran at this
+	// instant and the step is at most slack/2.  unfairAt = the instant the last
+	// unfair step ended: the watcher was kept from running until then.
+	timer := ttl // NewRequestsWatcher: creation + TTL
+	timerKnown := k.Sched
+	wokeAt := int64(-1)
+	unfairAt := int64(-1)
+	held := func() {
+		if m := reqs[asking]; asking != 0 && m != nil {
+			m.lastHeld = now
+		}
+	}
 	countWaiting := func() int {
 		n := 0
 		for _, r := range reqs {
@@ -89,11 +115,25 @@ func monitor(k *Case) []c.Hit {
 		op := &k.Ops[i]
 		o := &op.Obs
 		prevAsking := asking
+		held()
 		switch op.K {
 		case OpArrive, OpCheck:
-			reqs[op.R] = &monReq{prio: prioOf(cfg, op.G), created: true, createdAt: now, expire: now + ttl}
+			reqs[op.R] = &monReq{prio: prioOf(cfg, op.G), created: true, createdAt: now, expire: now + ttl, lastHeld: -1}
 		case OpAdvance:
+			if op.D > 0 && !drained {
+				fair := timerKnown
+				if timer > now {
+					fair = fair && now+op.D <= timer
+				} else {
+					fair = fair && wokeAt == now && op.D <= slackNs/2
+				}
+				if !fair {
+					unfairAt = now + op.D
+				}
+			}
 			now += op.D
+		case OpWake, OpScan:
+			wokeAt = now
 		case OpGate:
 			gateOpen = op.B
 			if gateOpen {
@@ -105,6 +145,7 @@ func monitor(k *Case) []c.Hit {
 		if (op.K == OpArrive || op.K == OpEnter) && !o.Rejected {
 			if m := reqs[op.R]; m != nil {
 				m.waiting = true
+				m.entered = now
 				m.seq = seq
 				m.lateEntry = drained
 				seq++
@@ -174,8 +215,32 @@ func monitor(k *Case) []c.Hit {
 				add("early-timeout", "a waiting request is rejected only at its time-to-live or at shutdown",
 					fmt.Sprintf("op %d: r%d rejected at %d ns, expires at %d ns", i, v.R, now, m.expire))
 			}
+			// no later than the time-to-live plus scheduling slack: counted from the
+			// instant the request entered the queue; the loop holding the request, and
+			// a watcher that was not given the chance to run, postpone the deadline
+			if k.Sched && !(drained || op.K == OpDrain) {
+				base, why := m.entered+ttl, "entry + TTL"
+				if m.lastHeld > base {
+					base, why = m.lastHeld, "the last instant the loop held it"
+				}
+				if unfairAt > base {
+					base, why = unfairAt, "the first instant the watcher could run again"
+				}
+				if now > base+slackNs {
+					add("ttl-late:watcher-timer", "a verdict no later than the time-to-live plus scheduling slack (one 100 ms loop period)",
+						fmt.Sprintf("op %d: r%d entered the queue at %d ns (TTL %d ns) and got its verdict at %d ns, %d ns after %s, although the "+
+							"watcher was given the chance to run whenever its timer was due (timer after the previous operation: %d ns)",
+							i, v.R, m.entered, ttl, now, now-base, why, timer))
+				}
+			}
 			m.waiting, m.returned = false, true
 			m.heldBack = !gateOpen
+		}
+		held()
+		if o.Nea != nil {
+			timer = *o.Nea
+		} else {
+			timerKnown = false
 		}
 		if op.K == OpScan {
 			for n, m := range reqs {
